@@ -646,7 +646,14 @@ func buildField(ww *conversionVisitor, node sourcewalk.FieldNode) (*descriptorpb
 			proto.SetExtension(desc.Options, ext_j5pb.E_Key, entityExt)
 		}
 
-		ww.setJ5Ext(node.Source, desc.Options, "key", st.Key.Ext)
+		keyExt := ww.setJ5Ext(node.Source, desc.Options, "key", st.Key.Ext)
+		if custom, ok := st.Key.GetFormat().GetType().(*schema_j5pb.KeyFormat_Custom_); ok {
+			// a bare validation pattern cannot be told apart from a plain
+			// string rule when the proto is read back
+			if keyOpt, ok := keyExt.Type.(*ext_j5pb.FieldOptions_Key); ok {
+				keyOpt.Key.Type = &ext_j5pb.KeyField_Pattern{Pattern: custom.Custom.Pattern}
+			}
+		}
 
 		if st.Key.ListRules != nil {
 			var fkt list_j5pb.IsForeignKeyRules_Type
